@@ -134,12 +134,12 @@ type trajectory struct {
 	nanParamsAt  []bool
 	floorActive  bool // a vector-normal component sits on the variance floor (d >= 2)
 	family       string
-	finalSet     bool // HMM with a final-state restriction
-	illCond      string // spread class of normal data when |mean|/sd >= 1e4
-	reported []float64 // likelihood handed to hook i (NaN for i = 0)
-	model    []float64 // log-likelihood of the model handed to hook i, by LogPdf
-	tol      []float64 // rounding allowance of model[i]
-	evalErr  error
+	finalSet     bool      // HMM with a final-state restriction
+	illCond      string    // spread class of normal data when |mean|/sd >= 1e4
+	reported     []float64 // likelihood handed to hook i (NaN for i = 0)
+	model        []float64 // log-likelihood of the model handed to hook i, by LogPdf
+	tol          []float64 // rounding allowance of model[i]
+	evalErr      error
 }
 
 // noteParams flags NaN parameters of the model handed to a hook.
